@@ -10,21 +10,23 @@ fn main() {
     let seed: u64 = arg(&args, "--seed").map(|s| s.parse().unwrap()).unwrap_or(1);
     let thorough = arg(&args, "--tier").map(|s| s == "thorough").unwrap_or(false);
     let only = arg(&args, "--only").map(|s| s.parse().unwrap());
+    let from: usize = arg(&args, "--from").map(|s| s.parse().unwrap()).unwrap_or(0);
     let scale: usize = arg(&args, "--scale").map(|s| s.parse().unwrap()).unwrap_or(1);
     let reg = gen_types::registry();
     let stdout = std::io::stdout();
     let mut out = std::io::BufWriter::with_capacity(1 << 16, stdout.lock());
     for (i, t) in reg.iter().enumerate() {
+        if from > 0 { break; }
         writeln!(out, "T {} {} {} align={} min={} flags={}", i, t.name().replace(' ', ""), t.desc(), t.align(), t.min_size(), t.flags()).unwrap();
     }
     match suite {
         "types" => {}
-        "bytes" => suite_bytes::run(&reg, &suite_bytes::Cfg { seed, thorough, only, scale }, &mut out),
-        "emplace" => suite_emplace::run(&reg, &gen_types::defaults(), &suite_emplace::Cfg { seed, thorough, only, scale }, &mut out),
-        "io" => suite_io_gen::run(&reg, &suite_io_gen::Cfg { seed, thorough, only, scale, which: "blocking".into() }, &mut out),
-        "aio" => suite_io_gen::run(&reg, &suite_io_gen::Cfg { seed, thorough, only, scale, which: "async".into() }, &mut out),
+        "bytes" => suite_bytes::run(&reg, &suite_bytes::Cfg { seed, thorough, only, from, scale }, &mut out),
+        "emplace" => suite_emplace::run(&reg, &gen_types::defaults(), &suite_emplace::Cfg { seed, thorough, only, from, scale }, &mut out),
+        "io" => suite_io_gen::run(&reg, &suite_io_gen::Cfg { seed, thorough, only, from, scale, which: "blocking".into() }, &mut out),
+        "aio" => suite_io_gen::run(&reg, &suite_io_gen::Cfg { seed, thorough, only, from, scale, which: "async".into() }, &mut out),
         "portable" => suite_portable::run(&suite_portable::Cfg { seed, thorough }, &mut out),
-        "ops" => suite_ops::run(&reg, &suite_ops::Cfg { seed, thorough, only, scale }, &mut out),
+        "ops" => suite_ops::run(&reg, &suite_ops::Cfg { seed, thorough, only, from, scale }, &mut out),
         "exec" => {
             // lines on stdin: left-hand sides (anything after " => " is ignored)
             let mut ar = arena::Arena::new(1);
